@@ -1,131 +1,1264 @@
 //go:build verif
 
+// C11 — streaming subscribers materialize exactly the server's state.
+//
+// Deterministic mode (plain build): every schedule runs inside a testing/synctest bubble. The server
+// side is a real FSM + state store + stream.EventPublisher whose Run loop is NOT started: the
+// scheduler itself hands over one committed batch at a time (VerifDrainOne). The subscriber side is
+// consul's own client code, unmodified and free-running: submatview.LocalMaterializer.Run (subscribe,
+// Subscription.Next, Payload.ToSubscriptionEvent, the snapshot/resume/NewSnapshotToFollow handler state
+// machine, retry/resubscribe) feeding health.HealthView / configentry views. synctest.Wait() tells
+// the scheduler when every materializer goroutine is durably blocked, so each step has a definite
+// outcome without any wall-clock; a gate in front of View.Update makes "the subscriber consumes one
+// delivery" a scheduler step of its own.
+// Oracle: per subject the scheduler records, after every commit, the canonical answer of the direct
+// store query; a delivery at index d must leave the view equal to the answer recorded for index d.
+//
+// Free-running mode (race build): see c11_free_test.go.
 package c11
 
 import (
 	"context"
 	"errors"
 	"fmt"
-	"io"
+	"strings"
+	"sync"
 	"testing"
 	"testing/synctest"
 	"time"
 
 	"github.com/hashicorp/go-hclog"
-	"google.golang.org/grpc"
 
-	"github.com/hashicorp/consul/acl"
-	"github.com/hashicorp/consul/acl/resolver"
-	"github.com/hashicorp/consul/agent/consul/fsm"
-	"github.com/hashicorp/consul/agent/consul/state"
 	"github.com/hashicorp/consul/agent/consul/stream"
-	"github.com/hashicorp/consul/agent/rpcclient/health"
 	"github.com/hashicorp/consul/agent/structs"
 	"github.com/hashicorp/consul/agent/submatview"
-	raftstorage "github.com/hashicorp/consul/internal/storage/raft"
-	"github.com/hashicorp/consul/zzverif/fsmkit"
-	"github.com/hashicorp/raft"
+	"github.com/hashicorp/consul/lib/retry"
+	"github.com/hashicorp/consul/proto/private/pbsubscribe"
+	"github.com/hashicorp/consul/zzverif/core"
+	"github.com/hashicorp/consul/zzverif/gen"
 )
 
-type handle struct{}
+// ---------------- subscriber plumbing ----------------
 
-func (*handle) Apply(msg []byte) (any, error)               { return nil, errors.New("no apply") }
-func (*handle) IsLeader() bool                              { return true }
-func (*handle) EnsureStrongConsistency(context.Context) error { return nil }
-func (*handle) DialLeader() (*grpc.ClientConn, error)       { return nil, errors.New("no leader dial") }
-
-type replica struct {
-	fsm *fsm.FSM
-	pub *stream.EventPublisher
+type delivery struct {
+	subNo    int      // ordinal of the subscription (Backend.Subscribe call) it arrived on
+	snapshot bool     // first update after a subscribe at index 0 or after NewSnapshotToFollow
+	idxs     []uint64 // distinct event indexes in the update
+	n        int
+	content  string // canonical rendering of the view after the update
+	err      string
+	ops      []string // updates carried ("register:web", "deregister:n1@/web"), used only to name the cause of a mismatch
 }
 
-func newReplica(ttl time.Duration) *replica {
-	logger := hclog.New(&hclog.LoggerOptions{Output: io.Discard, Level: hclog.Off})
-	be, err := raftstorage.NewBackend(&handle{}, logger)
+// gatedView wraps the real view. Update parks until the scheduler releases it (one delivery = one
+// scheduler step) and records what the view holds after the real Update.
+type gatedView struct {
+	inner   submatview.View
+	subj    *subject
+	sb      *subsc
+	release chan struct{}
+	quit    chan struct{}
+
+	mu         sync.Mutex
+	parked     bool
+	log        []delivery
+	resets     int
+	expectSnap bool
+}
+
+func (g *gatedView) Update(events []*pbsubscribe.Event) error {
+	g.mu.Lock()
+	g.parked = true
+	g.mu.Unlock()
+	select {
+	case <-g.release:
+	case <-g.quit:
+	}
+	err := g.inner.Update(events)
+	dl := delivery{n: len(events), content: g.subj.render(g.inner.Result(0))}
+	if err != nil {
+		dl.err = err.Error()
+	}
+	for _, e := range events {
+		if len(dl.idxs) == 0 || dl.idxs[len(dl.idxs)-1] != e.Index {
+			dl.idxs = append(dl.idxs, e.Index)
+		}
+		if u := e.GetService(); u != nil {
+			dl.ops = append(dl.ops, strings.ToLower(u.Op.String())+":"+u.Name)
+		}
+		if u := e.GetServiceHealth(); u != nil && u.CheckServiceNode != nil && u.CheckServiceNode.Node != nil && u.CheckServiceNode.Service != nil {
+			n := u.CheckServiceNode
+			dl.ops = append(dl.ops, strings.ToLower(u.Op.String())+":"+n.Node.Node+"@"+n.Node.PeerName+"/"+n.Service.ID)
+		}
+	}
+	dl.subNo = g.sb.nSubLocked()
+	g.mu.Lock()
+	g.parked = false
+	dl.snapshot = g.expectSnap
+	g.expectSnap = false
+	g.log = append(g.log, dl)
+	g.mu.Unlock()
+	return err
+}
+func (g *gatedView) Result(index uint64) any { return g.inner.Result(index) }
+func (g *gatedView) Reset() {
+	g.inner.Reset()
+	g.mu.Lock()
+	g.resets++
+	g.expectSnap = true
+	g.mu.Unlock()
+}
+
+type subInfo struct {
+	epoch  int
+	index  uint64 // index the client resubscribed with
+	commit uint64 // last committed raft index at subscribe time
+	resets int    // NewSnapshotToFollow resets the client had seen before this subscribe
+}
+
+// subsc is one client: one LocalMaterializer with its view.
+type subsc struct {
+	id    int
+	subj  *subject
+	token string
+	lazy  bool
+	s     *sched
+	mat   *submatview.LocalMaterializer
+	gv    *gatedView
+	ctx   context.Context
+	stop  context.CancelFunc
+	done  chan struct{}
+
+	// written by the materializer goroutine under s.mu
+	subsDone []subInfo
+	errs     []string
+
+	// oracle state (scheduler goroutine only)
+	parked     bool
+	delivered  int
+	haveLast   bool
+	lastIdx    uint64
+	lastEpoch  int
+	lastKind   string
+	maxIdx     uint64
+	maxEpoch   int
+	tainted    bool
+	wasTainted bool
+	// the client resubscribed after a restore with a non-zero index and was NOT sent a new snapshot
+	resumedAcross bool
+	nonTypical    string // service list: an update received since the last snapshot that no change of the typical-kind names accounts for
+	// obligations to have left the subscription that was open when a restore / an ACL change of the
+	// client's token took effect: cause -> number of subscribes the client had done by then
+	oblig map[string]int
+	runs       int
+	seenResets int
+}
+
+func (sb *subsc) nSubLocked() int { sb.s.mu.Lock(); defer sb.s.mu.Unlock(); return len(sb.subsDone) }
+
+// Subscribe implements submatview.LocalBackend: a pass-through to the real publisher that notes
+// when, in which restore epoch and with which index the client (re)subscribed.
+func (sb *subsc) Subscribe(req *stream.SubscribeRequest) (*stream.Subscription, error) {
+	s := sb.s
+	sb.gv.mu.Lock()
+	resets := sb.gv.resets
+	sb.gv.mu.Unlock()
+	s.mu.Lock()
+	sb.subsDone = append(sb.subsDone, subInfo{epoch: s.epoch, index: req.Index, commit: s.idx, resets: resets})
+	s.storm++
+	storm := s.storm > 300
+	s.mu.Unlock()
+	if req.Index == 0 {
+		sb.gv.mu.Lock()
+		sb.gv.expectSnap = true
+		sb.gv.mu.Unlock()
+	}
+	if storm {
+		// a client that resubscribes without end would keep the bubble from ever settling
+		s.mu.Lock()
+		s.stormed = true
+		s.mu.Unlock()
+		<-sb.gv.quit
+		return nil, errors.New("verif: resubscribe storm")
+	}
+	return s.r.pub.Subscribe(req)
+}
+
+// ---------------- the scheduler ----------------
+
+type rec struct {
+	epoch   int
+	commit  uint64
+	qidx    uint64
+	content string
+	aux     string
+}
+
+type batch struct {
+	commit uint64
+	epoch  int
+	closes []string // token secrets whose subscriptions this batch must terminate (ACL change)
+	desc   string
+}
+
+type savedSnap struct {
+	bytes    []byte
+	at       uint64
+	contents map[string]rec
+	tokens   map[string]bool
+}
+
+type sched struct {
+	run   *core.Run
+	rng   *core.Rand
+	name  string
+	sync  bool // drain right after every commit (no commit->publish window)
+	r     *replica
+	g     *gen.G
+	subjs []*subject
+
+	mu      sync.Mutex // guards what materializer goroutines touch: epoch, idx, storm, subsc.subsDone/errs
+	epoch   int
+	idx     uint64
+	storm   int
+	stormed bool
+
+	hist        map[string][]rec
+	commitEpoch map[uint64]int
+	multi       map[uint64]bool
+	pendingQ    []batch
+	subs        []*subsc
+	nextID      int
+	snaps       []savedSnap
+	tokens      map[string]bool // secret -> token row exists
+	aclSeq      int
+	steps       []string
+	cctx        context.Context
+	ttl         time.Duration
+	kinds       map[string]bool
+	stop        bool
+	restoredOld bool
+}
+
+const (
+	secretA = "5ec0a000-0000-0000-0000-00000000000a"
+	secretB = "5ec0b000-0000-0000-0000-00000000000b"
+	accA    = "acc0a000-0000-0000-0000-00000000000a"
+	accB    = "acc0b000-0000-0000-0000-00000000000b"
+	polP1   = "90110001-0000-0000-0000-000000000001"
+	polP2   = "90110002-0000-0000-0000-000000000002"
+	polP3   = "90110003-0000-0000-0000-000000000003"
+	roleR1  = "401e0001-0000-0000-0000-000000000001"
+)
+
+func (s *sched) logf(format string, a ...any) {
+	s.steps = append(s.steps, fmt.Sprintf("%d: ", len(s.steps))+trunc(fmt.Sprintf(format, a...), 400))
+}
+
+func (s *sched) violate(key, what string, extra map[string]any) {
+	w := map[string]any{"schedule": s.name, "sync_mode": s.sync, "snap_cache_ttl": s.ttl.String(), "steps": append([]string(nil), s.steps...)}
+	for k, v := range extra {
+		w[k] = v
+	}
+	s.run.Violation(key, fmt.Sprintf("schedule %s after step %d: %s", s.name, len(s.steps)-1, what), w)
+}
+
+// ---- commits
+
+func (s *sched) nextIdx() uint64 {
+	s.mu.Lock()
+	s.idx += 1 + uint64(s.rng.Intn(2))
+	i := s.idx
+	s.mu.Unlock()
+	return i
+}
+
+// commit applies one command through the FSM. Its event batch (every commit produces one: the ACL
+// unsubscribe event is always present) stays queued in the publisher until drained.
+func (s *sched) commit(class, desc string, data []byte, closes []string) any {
+	idx := s.nextIdx()
+	before := s.r.pub.VerifPending()
+	core.Progress("C11", fmt.Sprintf("%s commit @%d %s", s.name, idx, trunc(desc, 300)))
+	res := s.r.applyBytes(idx, data)
+	nb := s.r.pub.VerifPending() - before
+	if _, isErr := res.(error); isErr {
+		closes = nil
+	}
+	for i := 0; i < nb; i++ {
+		s.pendingQ = append(s.pendingQ, batch{commit: idx, epoch: s.epoch, closes: closes, desc: class})
+	}
+	if nb > 1 {
+		// the command committed several transactions at one raft index: between their batches a
+		// subscriber legitimately holds an intermediate state the monitor has no record of
+		s.multi[idx] = true
+		s.run.Count("multi-batch-commits")
+	}
+	s.commitEpoch[idx] = s.epoch
+	s.recordHist(idx)
+	s.logf("commit @%d (%d batch) %s", idx, nb, desc)
+	s.run.Count("step:commit")
+	s.run.Distinct("command-class", class)
+	if s.sync {
+		s.drainAll()
+	}
+	return res
+}
+
+func (s *sched) recordHist(commit uint64) {
+	st := s.r.fsm.State()
+	for _, sj := range s.subjs {
+		qidx, content := sj.direct(st)
+		h := s.hist[sj.Name]
+		if n := len(h); n > 0 && h[n-1].epoch == s.epoch && h[n-1].content != content {
+			s.run.Count("relevant-changes")
+			s.run.Count("relevant-changes:" + sj.Class)
+		}
+		r := rec{epoch: s.epoch, commit: commit, qidx: qidx, content: content}
+		if sj.aux != nil {
+			r.aux = sj.aux(st)
+		}
+		s.hist[sj.Name] = append(h, r)
+	}
+}
+
+func (s *sched) lookup(sj *subject, epoch int, d uint64) (rec, bool) {
+	h := s.hist[sj.Name]
+	for i := len(h) - 1; i >= 0; i-- {
+		if h[i].epoch == epoch && h[i].commit <= d {
+			return h[i], true
+		}
+	}
+	return rec{}, false
+}
+
+// matchSnapshot: a snapshot delivered with index d must be an answer the direct query gave WITH index d
+// in that epoch. (Usually there is one such answer. Where the store changes an answer without
+// advancing the index it reports for it - the blocking-query matter of C06 - there are several, and the
+// stream cannot be blamed for delivering any of them.) Falls back to lookup when the direct query never
+// reported exactly d (e.g. index 0 is delivered as 1).
+func (s *sched) matchSnapshot(sj *subject, epoch int, d uint64, content string) (rec, bool) {
+	h := s.hist[sj.Name]
+	var last rec
+	found := false
+	for i := len(h) - 1; i >= 0; i-- {
+		if h[i].epoch != epoch || h[i].qidx != d {
+			continue
+		}
+		if h[i].content == content {
+			return h[i], true
+		}
+		if !found {
+			last, found = h[i], true
+		}
+	}
+	if found {
+		return last, false
+	}
+	r, ok := s.lookup(sj, epoch, d)
+	return r, ok && r.content == content
+}
+
+func (s *sched) qidxHistory(sj *subject, epoch int) []string {
+	var out []string
+	var lastQ uint64
+	lastC := "\x00"
+	for _, r := range s.hist[sj.Name] {
+		if r.epoch == epoch && (r.qidx != lastQ || r.content != lastC) {
+			out = append(out, fmt.Sprintf("after commit @%d: index %d, answer %s", r.commit, r.qidx, core.Hash(r.content)))
+			lastQ, lastC = r.qidx, r.content
+		}
+	}
+	return out
+}
+
+func (s *sched) current(sj *subject) rec {
+	h := s.hist[sj.Name]
+	return h[len(h)-1]
+}
+
+// ---- publication
+
+func (s *sched) drainOne() bool {
+	if s.r.pub.VerifPending() == 0 {
+		return false
+	}
+	b := s.pendingQ[0]
+	s.pendingQ = s.pendingQ[1:]
+	// obligations first: the clients react concurrently as soon as the batch is handed over
+	for _, sec := range b.closes {
+		for _, sb := range s.subs {
+			if sb.token == sec {
+				sb.oblig["acl-change"] = len(sb.subsDoneCopy())
+				s.run.Count("acl-close-obligations")
+			}
+		}
+	}
+	n, ok := s.r.pub.VerifDrainOne()
+	if !ok {
+		panic("harness: queued batch vanished")
+	}
+	s.logf("drain batch of commit @%d (%d events)", b.commit, n)
+	s.run.Count("step:drain")
+	if b.epoch != s.epoch {
+		s.run.Count("pre-restore-batches-drained-after-restore")
+	}
+	s.settle()
+	return true
+}
+
+func (sb *subsc) subsDoneCopy() []subInfo {
+	sb.s.mu.Lock()
+	defer sb.s.mu.Unlock()
+	return append([]subInfo(nil), sb.subsDone...)
+}
+
+func (s *sched) drainAll() {
+	for !s.stop && s.drainOne() {
+	}
+}
+
+// ---- settling and checking
+
+func (s *sched) query(sb *subsc) submatview.Result {
+	q, _ := sb.mat.Query(s.cctx, 0) // cancelled context: never blocks; value and index are always filled in
+	return q
+}
+
+// settle waits until every goroutine of the bubble is durably blocked, judges what was delivered,
+// lets eager clients consume what is parked at their gate (one delivery at a time) and repeats.
+func (s *sched) settle() {
+	for iter := 0; ; iter++ {
+		synctest.Wait()
+		s.mu.Lock()
+		s.storm = 0
+		stormed := s.stormed
+		s.mu.Unlock()
+		if stormed {
+			s.violate("C11:client:endless-resubscribe", "a materializer resubscribed more than 300 times within one scheduler step", nil)
+			s.stop = true
+			return
+		}
+		s.harvest()
+		if s.stop || iter > 2000 {
+			return
+		}
+		var next *subsc
+		for _, sb := range s.subs {
+			if sb.parked && !sb.lazy {
+				next = sb
+				break
+			}
+		}
+		if next == nil {
+			break
+		}
+		s.releaseGate(next)
+	}
+	if s.r.pub.VerifPending() == 0 {
+		s.quiescentCheck()
+	}
+}
+
+func (s *sched) releaseGate(sb *subsc) {
+	sb.parked = false
+	sb.gv.release <- struct{}{}
+}
+
+func (s *sched) harvest() {
+	for _, sb := range s.subs {
+		sb.gv.mu.Lock()
+		log := sb.gv.log
+		sb.gv.log = nil
+		parked := sb.gv.parked
+		resets := sb.gv.resets
+		sb.gv.mu.Unlock()
+		if resets > sb.seenResets {
+			s.run.CountN("new-snapshot-to-follow", resets-sb.seenResets)
+			sb.seenResets = resets
+		}
+		for i, dl := range log {
+			s.checkDelivery(sb, dl, i == len(log)-1 && !parked)
+		}
+		sb.parked = parked
+		if len(sb.oblig) > 0 && !parked {
+			subs := sb.subsDoneCopy()
+			for _, why := range []string{"restore", "acl-change"} {
+				had, ok := sb.oblig[why]
+				if !ok {
+					continue
+				}
+				delete(sb.oblig, why)
+				if len(subs) <= had {
+					s.violate("C11:"+why+":subscription-not-terminated",
+						fmt.Sprintf("client %d (%s, token %q) still reads from a subscription opened before the %s; it was not forced to resubscribe", sb.id, sb.subj.Name, sb.token, why),
+						map[string]any{"client": sb.id, "subject": sb.subj.Name})
+					sb.tainted = true
+					continue
+				}
+				s.run.Count("forced-resubscribes:" + why)
+				if subs[had].index == 0 {
+					s.run.Count("resubscribe-index:zero")
+				} else {
+					s.run.Count("resubscribe-index:nonzero")
+				}
+				if why == "restore" {
+					// did the client get a new snapshot on any subscription since the restore?
+					fresh := false
+					for k := had; k < len(subs); k++ {
+						after := resets
+						if k+1 < len(subs) {
+							after = subs[k+1].resets
+						}
+						if subs[k].index == 0 || after > subs[k].resets {
+							fresh = true
+						}
+					}
+					if !fresh {
+						sb.resumedAcross = true
+						s.run.Count("resumed-by-index-across-restore")
+					}
+				}
+			}
+		}
+	}
+}
+
+func (s *sched) checkDelivery(sb *subsc, dl delivery, canQuery bool) {
+	sj := sb.subj
+	kind := "event"
+	if dl.snapshot {
+		kind = "snapshot"
+	}
+	s.run.Count("deliveries:" + kind)
+	s.run.Count("deliveries:" + sj.Class)
+	s.kinds["delivery:"+kind] = true
+	sb.delivered++
+	subs := sb.subsDoneCopy()
+	if dl.subNo < 1 || dl.subNo > len(subs) {
+		panic("harness: delivery without subscription")
+	}
+	info := subs[dl.subNo-1]
+	epoch := info.epoch
+	if dl.err != "" {
+		s.violate("C11:"+sj.Class+":view-update-error", fmt.Sprintf("client %d (%s): View.Update failed: %s", sb.id, sj.Name, dl.err), nil)
+		sb.tainted = true
+		return
+	}
+	if len(dl.idxs) > 1 {
+		s.violate("C11:"+sj.Class+":mixed-index-delivery:"+kind, fmt.Sprintf("client %d (%s): one %s delivery carries events of several indexes %v", sb.id, sj.Name, kind, dl.idxs), nil)
+	}
+	var d uint64
+	if len(dl.idxs) > 0 {
+		d = dl.idxs[len(dl.idxs)-1]
+	}
+	if canQuery {
+		q := s.query(sb)
+		if got := sj.render(q.Value); got != dl.content {
+			panic(fmt.Sprintf("harness: recorded view content differs from Query: %q vs %q", dl.content, got))
+		}
+		if d != 0 && q.Index != d {
+			s.violate("C11:"+sj.Class+":view-index-differs-from-event-index:"+kind,
+				fmt.Sprintf("client %d (%s): after a %s delivery of events at index %d the materializer reports index %d", sb.id, sj.Name, kind, d, q.Index), nil)
+		}
+		if d == 0 {
+			d = q.Index
+		}
+	}
+	if d == 0 {
+		// an empty snapshot immediately followed by further deliveries: its index was not observable
+		s.run.Count("deliveries:index-unobservable")
+		if dl.snapshot {
+			sb.tainted = false
+		}
+		return
+	}
+	s.logf("  client %d (%s) %s delivery at index %d (%d events)", sb.id, sj.Name, kind, d, dl.n)
+
+	if sj.Class == "service-list" && !dl.snapshot {
+		s.noteServiceListOps(sb, d, dl.ops)
+	}
+	// an event batch committed before a restore, delivered on a subscription opened after it
+	if !dl.snapshot {
+		if be, ok := s.commitEpoch[d]; ok && be < epoch {
+			s.violate("C11:restore:pre-restore-batch-delivered-after-restore",
+				fmt.Sprintf("client %d (%s) subscribed after a snapshot restore and then received the events of commit @%d, which was applied BEFORE the restore (its batch was still queued for publication)", sb.id, sj.Name, d),
+				map[string]any{"client": sb.id, "subject": sj.Name, "index": d})
+			sb.tainted = true
+			return
+		}
+	}
+	sb.wasTainted = sb.tainted
+	if dl.snapshot {
+		sb.tainted = false
+		sb.resumedAcross = false
+	}
+	if sb.maxEpoch != epoch {
+		sb.maxEpoch, sb.maxIdx = epoch, 0
+	}
+	if dl.snapshot && sb.wasTainted {
+		// a violation was already reported for this client; its index history restarts with this snapshot
+		sb.haveLast = false
+	}
+	if sb.haveLast && sb.lastEpoch == epoch && d < sb.lastIdx {
+		key := "C11:" + sj.Class + ":delivered-index-decreased:" + kind + "-after-" + sb.lastKind
+		if !dl.snapshot && d <= info.commit {
+			key = "C11:publish-window:earlier-commit-delivered-after-snapshot"
+		}
+		if dl.snapshot && sb.lastKind == "event" {
+			// the snapshot carries the index the STORE reports for the subject; the earlier event carried
+			// its commit index. Did that commit change the subject's answer without the store advancing
+			// the index it reports for it?
+			if r, ok := s.lookup(sj, epoch, sb.lastIdx); ok && r.commit == sb.lastIdx && r.qidx < r.commit {
+				key = "C11:" + sj.Class + ":snapshot-index-below-delivered-event-index:store-index-not-advanced-by-the-commit"
+			}
+		}
+		if sj.Class == "service-list" && sb.nonTypical != "" {
+			key = "C11:service-list:update-for-non-typical-kind-row"
+		}
+		if dl.snapshot && info.index != 0 {
+			// a resubscribe with a stale index: was it answered with a snapshot OLDER than what a direct
+			// query returned at that moment (a cached snapshot, to be followed by catch-up events)?
+			if r, ok := s.lookup(sj, epoch, info.commit); ok && d < r.qidx {
+				key = "C11:snapshot-cache:resubscribe-answered-with-older-cached-snapshot:index-decreased"
+			}
+		}
+		s.violate(key,
+			fmt.Sprintf("client %d (%s): %s delivery at index %d follows a %s delivery at index %d (subscription opened with index %d when the last commit was @%d)", sb.id, sj.Name, kind, d, sb.lastKind, sb.lastIdx, info.index, info.commit),
+			map[string]any{"client": sb.id, "subject": sj.Name, "index": d, "previous": sb.lastIdx, "direct_query_index_history": s.qidxHistory(sj, epoch)})
+		s.run.Count("index-decreases")
+	}
+	if dl.snapshot {
+		sb.nonTypical = ""
+	}
+	regressed := d < sb.maxIdx
+	if d > sb.maxIdx {
+		sb.maxIdx = d
+	}
+	sb.haveLast, sb.lastIdx, sb.lastEpoch, sb.lastKind = true, d, epoch, kind
+	if sb.tainted {
+		return
+	}
+	exp, ok := s.lookup(sj, epoch, d)
+	if !ok {
+		panic("harness: no recorded answer")
+	}
+	if dl.snapshot {
+		exp, _ = s.matchSnapshot(sj, epoch, d, dl.content)
+	}
+	if regressed {
+		// the view went back in time (reported above); what it holds now is a mix, not judged
+		if exp.content != dl.content {
+			s.run.Count("mixed-views-while-regressed")
+		}
+		return
+	}
+	if s.multi[d] {
+		s.run.Count("deliveries:of-multi-batch-commit")
+		return
+	}
+	s.run.Count("delivery-checks")
+	if exp.content != dl.content {
+		key, detail := s.classify(sb, "at-delivered-index:"+kind, exp, dl.content, dl.ops)
+		s.violate(key,
+			fmt.Sprintf("client %d (%s): after the %s delivery at index %d the view differs from the direct query at that index: %s", sb.id, sj.Name, kind, d, detail),
+			map[string]any{"client": sb.id, "subject": sj.Name, "index": d, "direct_query": exp.content, "view": dl.content})
+		sb.tainted = true
+	}
+}
+
+// noteServiceListOps: is every Register/Deregister update of commit d accounted for by a change of
+// the typical-kind service names at that commit (the monitor's own record)?
+func (s *sched) noteServiceListOps(sb *subsc, d uint64, ops []string) {
+	ce, ok := s.commitEpoch[d]
+	if !ok {
+		return
+	}
+	h := s.hist[sb.subj.Name]
+	for i := 1; i < len(h); i++ {
+		if h[i].epoch != ce || h[i].commit != d || h[i-1].epoch != ce {
+			continue
+		}
+		has := func(r rec, n string) bool { return strings.Contains("\n"+r.content+"\n", "\n"+n+"\n") }
+		for _, op := range ops {
+			verb, name, _ := strings.Cut(op, ":")
+			was, is := has(h[i-1], name), has(h[i], name)
+			if (verb == "register" && !was && is) || (verb == "deregister" && was && !is) {
+				continue
+			}
+			s.run.Count("service-list-updates-for-non-typical-kind-rows")
+			if sb.nonTypical == "" {
+				sb.nonTypical = fmt.Sprintf("%s %q at index %d (typical-kind service of that name before the commit: %v, after: %v; rows of other kinds after: %s)", verb, name, d, was, is, strings.ReplaceAll(h[i].aux, "\n", " "))
+			}
+		}
+		return
+	}
+}
+
+// classify names the violation key of a view/store disagreement: a key per CAUSE where the monitor
+// can establish the cause from its own records, a key per (subject class, phase, kind of difference) otherwise.
+func (s *sched) classify(sb *subsc, phase string, exp rec, got string, ops []string) (key, detail string) {
+	cls, detail := diffClass(exp.content, got)
+	if sb.resumedAcross {
+		return "C11:restore:resumed-by-index-across-restore:stale-view", "the client resubscribed after the restore with its old index, the server resumed the stream without a new snapshot; " + detail
+	}
+	if cls == "stale-case-variant-node-entry" {
+		return "C11:health-view:node-name-case-variant:stale-entry-kept", detail
+	}
+	if cls == "extra-in-view" && (sb.subj.Class == "health" || sb.subj.Class == "connect") {
+		id, _, _ := strings.Cut(detail, " is in the view")
+		for _, op := range ops {
+			if o, ok := strings.CutPrefix(op, "deregister:"); ok && o != id && strings.EqualFold(o, id) {
+				return "C11:health-view:node-name-case-variant:stale-entry-kept", fmt.Sprintf("%s stays in the view: the Deregister update names the instance %s (node names are case-insensitive in the catalog, the view's keys are not)", id, o)
+			}
+		}
+		if sb.subj.Class == "connect" {
+			// is the instance still registered, but no longer connect-native?
+			plain := strings.Replace(sb.subj.Name, "connect:", "health:", 1)
+			for i := len(s.hist[plain]) - 1; i >= 0; i-- {
+				r := s.hist[plain][i]
+				if r.epoch != exp.epoch || r.commit > exp.commit {
+					continue
+				}
+				for _, l := range strings.Split(r.content, "\n") {
+					if strings.HasPrefix(l, id+" = ") && !strings.Contains(l, "Connect:{Native:true}") && !strings.Contains(l, `Kind:"`) {
+						return "C11:connect:instance-no-longer-connect-native:no-deregister-update", fmt.Sprintf("%s is still in the view of the Connect topic; the instance was re-registered without Connect.Native and is no longer in the direct query result, no update removed it", id)
+					}
+				}
+				break
+			}
+		}
+	}
+	if sb.subj.Class == "service-list" && sb.nonTypical != "" {
+		return "C11:service-list:update-for-non-typical-kind-row", detail + "; the client had received " + sb.nonTypical + ", an update that no change of the typical-kind service names (what the snapshot lists) accounts for: updates are emitted for kind-service-names rows of EVERY kind (connect-proxy, gateways, connect-enabled, destination) and the name-keyed view cannot tell them apart"
+	}
+	return "C11:" + sb.subj.Class + ":view-differs-" + phase + ":" + cls, detail
+}
+
+// quiescentCheck: everything committed has been published and every client that is not parked at
+// its gate has consumed all it was sent: its view must equal the current store.
+func (s *sched) quiescentCheck() {
+	for _, sb := range s.subs {
+		if sb.parked || sb.tainted || sb.delivered == 0 {
+			continue
+		}
+		subs := sb.subsDoneCopy()
+		if len(subs) == 0 || subs[len(subs)-1].epoch != s.epoch {
+			continue // reported through the resubscribe obligation
+		}
+		q := s.query(sb)
+		cur := s.current(sb.subj)
+		got := sb.subj.render(q.Value)
+		s.run.Count("quiescent-checks")
+		if got != cur.content {
+			key, detail := s.classify(sb, "at-quiescence", cur, got, nil)
+			s.violate(key,
+				fmt.Sprintf("client %d (%s): all batches published and consumed, view (index %d) differs from the current store (query index %d): %s", sb.id, sb.subj.Name, q.Index, cur.qidx, detail),
+				map[string]any{"client": sb.id, "subject": sb.subj.Name, "direct_query": cur.content, "view": got})
+			sb.tainted = true
+		}
+	}
+}
+
+// ---- clients
+
+func (s *sched) startRun(sb *subsc) {
+	sb.ctx, sb.stop = context.WithCancel(context.Background())
+	sb.done = make(chan struct{})
+	sb.runs++
+	go func(ctx context.Context, done chan struct{}) {
+		sb.mat.Run(ctx)
+		close(done)
+	}(sb.ctx, sb.done)
+}
+
+func (s *sched) newClient(sj *subject, token string, lazy bool) *subsc {
+	s.nextID++
+	sb := &subsc{id: s.nextID, subj: sj, token: token, lazy: lazy, s: s, oblig: map[string]int{}}
+	sb.gv = &gatedView{inner: sj.newView(), subj: sj, sb: sb, release: make(chan struct{}), quit: make(chan struct{})}
+	sb.mat = submatview.NewLocalMaterializer(submatview.LocalMaterializerDeps{
+		Backend:     sb,
+		ACLResolver: allowAll{},
+		Deps: submatview.Deps{
+			View:    sb.gv,
+			Logger:  hclog.NewNullLogger(),
+			Request: sj.request(token),
+			// retry at once, always: no client-side timing in the schedule
+			Waiter: &retry.Waiter{MinFailures: 1 << 30},
+		},
+	})
+	s.subs = append(s.subs, sb)
+	s.startRun(sb)
+	s.logf("client %d subscribes to %s token=%q lazy=%v", sb.id, sj.Name, token, lazy)
+	s.run.Count("step:subscribe")
+	s.run.Distinct("subject", sj.Name)
+	s.settle()
+	return sb
+}
+
+// haltClient cancels the client's Run (only when it is idle in Next, so that the outcome is definite).
+func (s *sched) haltClient(sb *subsc) {
+	sb.stop()
+	<-sb.done
+}
+
+func (s *sched) removeClient(sb *subsc) {
+	s.haltClient(sb)
+	for i, x := range s.subs {
+		if x == sb {
+			s.subs = append(s.subs[:i], s.subs[i+1:]...)
+			break
+		}
+	}
+	s.logf("client %d (%s) unsubscribes", sb.id, sb.subj.Name)
+	s.run.Count("step:unsubscribe")
+	s.settle()
+}
+
+// reconnect: the connection drops and the same materializer (view and index intact) runs again: it
+// resubscribes with the index it last saw.
+func (s *sched) reconnect(sb *subsc) {
+	s.haltClient(sb)
+	s.startRun(sb)
+	s.logf("client %d (%s) reconnects with its last index %d", sb.id, sb.subj.Name, sb.lastIdx)
+	s.run.Count("step:reconnect")
+	s.settle()
+}
+
+func (s *sched) idleClients() []*subsc {
+	var out []*subsc
+	for _, sb := range s.subs {
+		if !sb.parked && len(sb.oblig) == 0 {
+			out = append(out, sb)
+		}
+	}
+	return out
+}
+
+// ---- ACL changes
+
+func (s *sched) aclPrelude() {
+	rules := `service_prefix "" { policy = "read" } node_prefix "" { policy = "read" }`
+	var pols structs.ACLPolicies
+	for i, id := range []string{polP1, polP2, polP3} {
+		p := &structs.ACLPolicy{ID: id, Name: fmt.Sprintf("zvp%d", i+1), Rules: rules}
+		p.SetHash(true)
+		pols = append(pols, p)
+	}
+	s.commit("acl:prelude", "policies P1 P2 P3", fsmEnc(structs.ACLPolicySetRequestType, &structs.ACLPolicyBatchSetRequest{Policies: pols}), nil)
+	role := &structs.ACLRole{ID: roleR1, Name: "zvr1", Policies: []structs.ACLRolePolicyLink{{ID: polP2}}}
+	role.SetHash(true)
+	s.commit("acl:prelude", "role R1 -> P2", fsmEnc(structs.ACLRoleSetRequestType, &structs.ACLRoleBatchSetRequest{Roles: structs.ACLRoles{role}}), nil)
+	s.commit("acl:prelude", "tokens A(P1) B(R1)", fsmEnc(structs.ACLTokenSetRequestType, &structs.ACLTokenBatchSetRequest{Tokens: structs.ACLTokens{s.token("a"), s.token("b")}}), nil)
+	s.tokens[secretA], s.tokens[secretB] = true, true
+	s.drainAll()
+}
+
+func (s *sched) token(which string) *structs.ACLToken {
+	s.aclSeq++
+	t := &structs.ACLToken{AccessorID: accA, SecretID: secretA, Description: fmt.Sprintf("A %d", s.aclSeq), Policies: []structs.ACLTokenPolicyLink{{ID: polP1}},
+		CreateTime: time.Unix(1_600_000_000, 0).UTC()}
+	if which == "b" {
+		t = &structs.ACLToken{AccessorID: accB, SecretID: secretB, Description: fmt.Sprintf("B %d", s.aclSeq), Roles: []structs.ACLTokenRoleLink{{ID: roleR1}},
+			CreateTime: time.Unix(1_600_000_000, 0).UTC()}
+	}
+	t.SetHash(true)
+	return t
+}
+
+// aclChange commits one ACL write. The set of token secrets whose subscriptions must be terminated
+// comes from the monitor's own model of the links it created (token A -> policy P1; token B -> role
+// R1 -> policy P2; P3 unlinked), not from the store.
+func (s *sched) aclChange() {
+	s.aclSeq++
+	rules := fmt.Sprintf(`service_prefix "" { policy = "read" } key_prefix "k%d" { policy = "read" }`, s.aclSeq)
+	pol := func(id, name string) []byte {
+		p := &structs.ACLPolicy{ID: id, Name: name, Rules: rules, Description: fmt.Sprint(s.aclSeq)}
+		p.SetHash(true)
+		return fsmEnc(structs.ACLPolicySetRequestType, &structs.ACLPolicyBatchSetRequest{Policies: structs.ACLPolicies{p}})
+	}
+	var closes []string
+	var desc string
+	var data []byte
+	switch k := s.rng.Intn(9); k {
+	case 0, 1:
+		which, sec := "a", secretA
+		if k == 1 {
+			which, sec = "b", secretB
+		}
+		desc, closes = "update token "+which, []string{sec}
+		data = fsmEnc(structs.ACLTokenSetRequestType, &structs.ACLTokenBatchSetRequest{Tokens: structs.ACLTokens{s.token(which)}})
+		s.tokens[sec] = true
+	case 2:
+		desc = "update policy P1 (linked to token A)"
+		if s.tokens[secretA] {
+			closes = []string{secretA}
+		}
+		data = pol(polP1, "zvp1")
+	case 3:
+		desc = "update policy P2 (linked to token B through role R1)"
+		if s.tokens[secretB] {
+			closes = []string{secretB}
+		}
+		data = pol(polP2, "zvp2")
+	case 4:
+		desc = "update role R1 (linked to token B)"
+		if s.tokens[secretB] {
+			closes = []string{secretB}
+		}
+		role := &structs.ACLRole{ID: roleR1, Name: "zvr1", Description: fmt.Sprint(s.aclSeq), Policies: []structs.ACLRolePolicyLink{{ID: polP2}}}
+		role.SetHash(true)
+		data = fsmEnc(structs.ACLRoleSetRequestType, &structs.ACLRoleBatchSetRequest{Roles: structs.ACLRoles{role}})
+	case 5, 6:
+		acc, sec, which := accA, secretA, "A"
+		if k == 6 {
+			acc, sec, which = accB, secretB, "B"
+		}
+		desc = "delete token " + which
+		if s.tokens[sec] {
+			closes = []string{sec}
+		}
+		s.tokens[sec] = false
+		data = fsmEnc(structs.ACLTokenDeleteRequestType, &structs.ACLTokenBatchDeleteRequest{TokenIDs: []string{acc}})
+	case 7:
+		desc = "update policy P3 (linked to nothing)"
+		data = pol(polP3, "zvp3")
+	default:
+		desc, closes = "update tokens A and B", []string{secretA, secretB}
+		data = fsmEnc(structs.ACLTokenSetRequestType, &structs.ACLTokenBatchSetRequest{Tokens: structs.ACLTokens{s.token("a"), s.token("b")}})
+		s.tokens[secretA], s.tokens[secretB] = true, true
+	}
+	res := s.commit("acl:change", "ACL change: "+desc+fmt.Sprintf(" (must close %v)", closes), data, closes)
+	if err, ok := res.(error); ok {
+		panic("harness: ACL change rejected: " + err.Error())
+	}
+	s.run.Count("step:acl-change")
+	s.kinds["acl-change"] = true
+}
+
+// ---- snapshot / restore
+
+func (s *sched) takeSnapshot() {
+	sn := savedSnap{bytes: s.r.snapshotBytes(), at: s.idx, contents: map[string]rec{}, tokens: map[string]bool{}}
+	for _, sj := range s.subjs {
+		sn.contents[sj.Name] = s.current(sj)
+	}
+	for k, v := range s.tokens {
+		sn.tokens[k] = v
+	}
+	s.snaps = append(s.snaps, sn)
+	s.logf("snapshot #%d taken at @%d", len(s.snaps)-1, s.idx)
+	s.run.Count("step:snapshot")
+}
+
+// restore replaces the store by a snapshot through FSM.Restore: either one taken right now (same
+// content) or an older one (user-initiated `consul snapshot restore`: content and table indexes go back).
+func (s *sched) restore(older bool) {
+	var sn savedSnap
+	which := "current state"
+	if older && len(s.snaps) > 0 {
+		k := s.rng.Intn(len(s.snaps))
+		sn = s.snaps[k]
+		which = fmt.Sprintf("snapshot #%d of @%d", k, sn.at)
+		s.restoredOld = true
+	} else {
+		older = false
+		s.takeSnapshot()
+		sn = s.snaps[len(s.snaps)-1]
+		s.snaps = s.snaps[:len(s.snaps)-1]
+	}
+	pend := s.r.pub.VerifPending()
+	s.mu.Lock()
+	s.epoch++
+	s.mu.Unlock()
+	s.tokens = map[string]bool{}
+	for k, v := range sn.tokens {
+		s.tokens[k] = v
+	}
+	for _, sb := range s.subs {
+		// (a newer obligation subsumes a pending older one of the same cause: the count only grows)
+		sb.oblig["restore"] = len(sb.subsDoneCopy())
+	}
+	s.logf("restore of %s with %d batches still queued", which, pend)
+	core.Progress("C11", s.name+" restore "+which)
+	if err := s.r.restoreBytes(sn.bytes); err != nil {
+		panic("harness: restore failed: " + err.Error())
+	}
+	// the record of the new epoch starts with what the restored store answers (exact reproduction of
+	// the snapshotted state is C02's subject, not this monitor's)
+	st := s.r.fsm.State()
+	for _, sj := range s.subjs {
+		qidx, content := sj.direct(st)
+		if content != sn.contents[sj.Name].content {
+			s.run.Count("restored-answer-differs-from-snapshot-time-answer")
+		}
+		r := rec{epoch: s.epoch, commit: 0, qidx: qidx, content: content}
+		if sj.aux != nil {
+			r.aux = sj.aux(st)
+		}
+		s.hist[sj.Name] = append(s.hist[sj.Name], r)
+	}
+	s.run.Count("step:restore")
+	if older {
+		s.run.Count("step:restore-older")
+	}
+	if pend > 0 {
+		s.run.Count("step:restore-with-queued-batches")
+	}
+	s.kinds["restore"] = true
+	s.settle()
+}
+
+// advance lets the (fake) clock of the bubble run past the snapshot-cache TTL: cached snapshots expire.
+func (s *sched) advance() {
+	time.Sleep(s.ttl + time.Second)
+	s.logf("clock advanced by %s (cached snapshots expire)", s.ttl+time.Second)
+	s.run.Count("step:advance-clock")
+	s.settle()
+}
+
+// ---- teardown
+
+func (s *sched) teardown() {
+	for _, sb := range s.subs {
+		close(sb.gv.quit)
+		sb.stop()
+	}
+	for _, sb := range s.subs {
+		<-sb.done
+	}
+}
+
+// ---- workload
+
+func fsmEnc(t structs.MessageType, req any) []byte {
+	b, err := structs.Encode(t, req)
 	if err != nil {
 		panic(err)
 	}
-	pub := stream.NewEventPublisher(ttl)
-	r := &replica{pub: pub}
-	r.fsm = fsm.NewFromDeps(fsm.Deps{
-		Logger:         logger,
-		NewStateStore:  func() *state.Store { return state.NewStateStoreWithEventPublisher(nil, pub) },
-		Publisher:      pub,
-		StorageBackend: be,
-	})
-	return r
+	return b
 }
 
-func (r *replica) apply(idx uint64, t structs.MessageType, req any) any {
-	return r.fsm.Apply(&raft.Log{Index: idx, Term: 1, Type: raft.LogCommand, Data: fsmkit.Encode(t, req)})
+var tokensOfClients = []string{"", secretA, secretB}
+
+// genCommand draws the next catalog / config-entry write; half of the time it insists on one that
+// names the service the subjects are about.
+func (s *sched) genCommand() gen.Cmd {
+	st := s.r.fsm.State()
+	c := s.g.Next(st, s.idx+1)
+	if s.rng.Chance(50) {
+		for try := 0; try < 6 && !strings.Contains(c.Desc, `"web"`); try++ {
+			c = s.g.Next(st, s.idx+1)
+		}
+	}
+	return c
 }
 
-type aclRes struct{}
-
-func (aclRes) ResolveTokenAndDefaultMeta(token string, entMeta *acl.EnterpriseMeta, authzContext *acl.AuthorizerContext) (resolver.Result, error) {
-	return resolver.Result{Authorizer: acl.ManageAll()}, nil
+func weights() gen.Weights {
+	return gen.Weights{Catalog: 50, Txn: 10, Config: 26, KV: 2, Session: 3, Peering: 2, VIP: 1, SysMeta: 2, Intention: 2}
 }
 
-type backend struct {
-	pub *stream.EventPublisher
-	n   int
-}
+func runSchedule(run *core.Run, rng *core.Rand, name string, nsteps int) {
+	s := &sched{run: run, rng: rng, name: name, hist: map[string][]rec{}, commitEpoch: map[uint64]int{}, multi: map[uint64]bool{}, tokens: map[string]bool{}, kinds: map[string]bool{}, idx: 3}
+	s.sync = rng.Chance(30)
+	s.ttl = core.Pick(rng, []time.Duration{0, 10 * time.Second, 10 * time.Second})
+	s.r = newReplica(s.ttl)
+	s.g = gen.New(rng.Fork(7), weights())
+	if rng.Chance(35) {
+		s.g.CaseVariantNodes()
+	}
+	s.subjs = allSubjects()
+	cctx, cancel := context.WithCancel(context.Background())
+	cancel()
+	s.cctx = cctx
+	defer s.teardown()
+	s.recordHist(0)
+	s.aclPrelude()
+	if rng.Chance(50) {
+		for _, c := range gen.VIPPrelude() {
+			s.commit(c.Class, c.Desc, c.Bytes, nil)
+		}
+		s.drainAll()
+	}
 
-func (b *backend) Subscribe(req *stream.SubscribeRequest) (*stream.Subscription, error) {
-	b.n++
-	return b.pub.Subscribe(req)
+	for step := 0; step < nsteps && !s.stop && run.Violations() <= 30; step++ {
+		pending := s.r.pub.VerifPending()
+		k := rng.Intn(100)
+		switch {
+		case k < 36:
+			if pending >= 56 {
+				s.drainOne()
+				continue
+			}
+			c := s.genCommand()
+			s.commit(c.Class, c.Desc, c.Bytes, nil)
+		case k < 56:
+			if !s.drainOne() {
+				c := s.genCommand()
+				s.commit(c.Class, c.Desc, c.Bytes, nil)
+			}
+		case k < 66:
+			if len(s.subs) >= 7 {
+				if idle := s.idleClients(); len(idle) > 0 {
+					s.removeClient(core.Pick(rng, idle))
+				}
+				continue
+			}
+			sj := core.Pick(rng, s.subjs)
+			if rng.Chance(35) {
+				sj = s.subjs[rng.Intn(2)] // the service-health subjects get most clients
+			}
+			s.newClient(sj, core.Pick(rng, tokensOfClients), rng.Chance(40))
+		case k < 76:
+			// a lazy client consumes one delivery
+			var parked []*subsc
+			for _, sb := range s.subs {
+				if sb.parked {
+					parked = append(parked, sb)
+				}
+			}
+			if len(parked) == 0 {
+				s.drainOne()
+				continue
+			}
+			sb := core.Pick(rng, parked)
+			s.logf("client %d (%s) consumes one delivery", sb.id, sb.subj.Name)
+			s.run.Count("step:consume")
+			s.releaseGate(sb)
+			s.settle()
+		case k < 81:
+			if pending >= 56 {
+				s.drainOne()
+				continue
+			}
+			s.aclChange()
+		case k < 84:
+			s.takeSnapshot()
+		case k < 88:
+			s.restore(rng.Chance(50))
+		case k < 91:
+			if s.ttl > 0 {
+				s.advance()
+			} else {
+				s.drainOne()
+			}
+		case k < 94:
+			if idle := s.idleClients(); len(idle) > 0 {
+				s.removeClient(core.Pick(rng, idle))
+			}
+		case k < 97:
+			if idle := s.idleClients(); len(idle) > 0 {
+				s.reconnect(core.Pick(rng, idle))
+			}
+		default:
+			s.logf("drain everything")
+			s.drainAll()
+		}
+	}
+
+	// quiescence: publish everything, let every client consume everything, compare with the store
+	if !s.stop {
+		s.logf("final: drain everything, every client consumes everything")
+		s.drainAll()
+		for i := 0; i < 5000 && !s.stop; i++ {
+			var p *subsc
+			for _, sb := range s.subs {
+				if sb.parked {
+					p = sb
+					break
+				}
+			}
+			if p == nil {
+				break
+			}
+			s.releaseGate(p)
+			s.settle()
+		}
+		s.settle()
+		for _, sb := range s.subs {
+			if sb.parked {
+				panic("harness: a client is still parked at the end")
+			}
+		}
+	}
+
+	run.Eval()
+	if s.kinds["delivery:snapshot"] && s.kinds["delivery:event"] && (s.kinds["restore"] || s.kinds["acl-change"]) {
+		run.NonTrivial(core.Hash(strings.Join(s.steps, "\n")))
+		if run.WantSample() {
+			n := len(s.steps)
+			if n > 25 {
+				n = 25
+			}
+			run.Sample(map[string]any{"schedule": name, "sync_mode": s.sync, "snap_cache_ttl": s.ttl.String(), "first_steps": s.steps[:n], "steps": len(s.steps)})
+		}
+	}
+	if s.sync {
+		run.Count("schedules:sync-publication")
+	} else {
+		run.Count("schedules:free-publication")
+	}
+	if s.restoredOld {
+		run.Count("schedules:with-older-restore")
+	}
 }
 
 func TestZZVerifC11(t *testing.T) {
-	synctest.Test(t, func(t *testing.T) {
-		r := newReplica(10 * time.Second)
-		res := r.apply(5, structs.RegisterRequestType, &structs.RegisterRequest{Datacenter: "dc1", Node: "n1", Address: "1.1.1.1", Service: &structs.NodeService{ID: "web", Service: "web", Port: 80}})
-		fmt.Println("apply:", res, "pending", r.pub.VerifPending())
-		sreq := structs.ServiceSpecificRequest{Datacenter: "dc1", ServiceName: "web"}
-		view, _ := health.NewHealthView(sreq)
-		be := &backend{pub: r.pub}
-		m := submatview.NewLocalMaterializer(submatview.LocalMaterializerDeps{
-			Backend: be, ACLResolver: aclRes{},
-			Deps: submatview.Deps{View: view, Logger: hclog.NewNullLogger(), Request: health.NewMaterializerRequest(sreq)},
-		})
-		ctx, cancel := context.WithCancel(context.Background())
-		done := make(chan struct{})
-		go func() { m.Run(ctx); close(done) }()
-		synctest.Wait()
-		cctx, ccancel := context.WithCancel(context.Background())
-		ccancel()
-		q, err := m.Query(cctx, 0)
-		fmt.Println("query1:", q.Index, len(q.Value.(*structs.IndexedCheckServiceNodes).Nodes), err, "subs", be.n)
-		n, ok := r.pub.VerifDrainOne()
-		fmt.Println("drain", n, ok)
-		synctest.Wait()
-		q, err = m.Query(cctx, 0)
-		fmt.Println("query2:", q.Index, len(q.Value.(*structs.IndexedCheckServiceNodes).Nodes), err, "subs", be.n)
-		r.apply(6, structs.RegisterRequestType, &structs.RegisterRequest{Datacenter: "dc1", Node: "n2", Address: "1.1.1.2", Service: &structs.NodeService{ID: "web", Service: "web", Port: 80}})
-		r.pub.VerifDrainOne()
-		synctest.Wait()
-		q, err = m.Query(cctx, 0)
-		fmt.Println("query3:", q.Index, len(q.Value.(*structs.IndexedCheckServiceNodes).Nodes), err, "subs", be.n)
-		// restore
-		snap, err := r.fsm.Snapshot()
-		if err != nil {
-			panic(err)
+	if zvRace {
+		freeRunning(t)
+		return
+	}
+	run := core.NewRun("C11", "exploration",
+		"PRNG schedules over a real FSM+state store+EventPublisher whose publish loop is single-stepped by the monitor (verif hook VerifDrainOne) and real submatview.LocalMaterializer clients (HealthView / ConfigEntryView / ConfigEntryListView / a service-list view) running inside a testing/synctest bubble. Steps: commit of a generated catalog/config-entry/txn write, hand-over of one queued batch, new client (8 subjects: health web, connect web, health web@peerA, health db, service-resolver web, service-resolver *, service-defaults web, service list; 3 tokens; eager or lazy), a lazy client consuming one delivery, ACL change (token/policy/role, linked or not), FSM snapshot, FSM restore (current or older snapshot, with or without queued batches), clock past the snapshot-cache TTL, unsubscribe, reconnect with last index. After every delivery at index d: view == direct store query recorded when d committed; indexes never decrease; closed subscriptions are left; at quiescence view == store. non-trivial = schedule with snapshot and event deliveries and a restore or ACL change; distinct by step list")
+	run.Assume("the gRPC transport (subscribe.Server) is not in the loop: LocalMaterializer reads stream.Subscription directly, as servers' own proxycfg sources do",
+		"every token may read everything (event filtering by permission is C09)",
+		"raft applies commands and restores sequentially: the scheduler never overlaps FSM.Apply/Restore with each other",
+		"the window between memdb commit and Publish inside txn.Commit is not opened separately: for a subscriber it is indistinguishable from 'committed, batch still queued', which the scheduler controls",
+		"result ORDER is not compared (views sort by node/service id), only the set of entries with all their fields")
+	gen.Services = []string{"web", "db", "web.v1"}
+	rng := core.NewRand(core.Seed())
+	nsched := core.N(300, 6000)
+	nsteps := core.N(80, 120)
+
+	workers := 1
+	if core.Thorough() {
+		workers = 12
+	}
+	forks := make([]*core.Rand, nsched)
+	for i := range forks {
+		forks[i] = rng.Fork(uint64(i))
+	}
+	t.Run("schedules", func(t *testing.T) {
+		for w := 0; w < workers; w++ {
+			w := w
+			t.Run(fmt.Sprintf("w%d", w), func(t *testing.T) {
+				if workers > 1 {
+					t.Parallel()
+				}
+				for i := w; i < nsched; i += workers {
+					if run.Violations() > 30 {
+						return
+					}
+					name := fmt.Sprintf("s%d", i)
+					synctest.Test(t, func(t *testing.T) {
+						runSchedule(run, forks[i], name, nsteps)
+					})
+				}
+			})
 		}
-		sk := &sink{}
-		if err := snap.Persist(sk); err != nil {
-			panic(err)
-		}
-		snap.Release()
-		if err := r.fsm.Restore(io.NopCloser(&sk.Buffer)); err != nil {
-			panic(err)
-		}
-		synctest.Wait()
-		q, err = m.Query(cctx, 0)
-		fmt.Println("query4:", q.Index, len(q.Value.(*structs.IndexedCheckServiceNodes).Nodes), err, "subs", be.n)
-		t0 := time.Now()
-		time.Sleep(11 * time.Second)
-		fmt.Println("slept", time.Since(t0))
-		cancel()
-		<-done
 	})
+	run.Floor("step:commit", nsched*10)
+	run.Floor("step:drain", nsched*8)
+	run.Floor("deliveries:snapshot", nsched*3)
+	run.Floor("deliveries:event", nsched*3)
+	run.Floor("delivery-checks", nsched*5)
+	run.Floor("quiescent-checks", nsched*5)
+	run.Floor("relevant-changes", nsched*3)
+	run.Floor("forced-resubscribes:restore", nsched/3)
+	run.Floor("forced-resubscribes:acl-change", nsched/6)
+	run.Floor("new-snapshot-to-follow", nsched/3)
+	run.Floor("resubscribe-index:nonzero", nsched/3)
+	run.FloorDistinct("subject", 8)
+	if run.Finish() == 1 {
+		t.Fail()
+	}
 }
